@@ -14,6 +14,11 @@ BEFORE = {
     'C15-3': 'missed (needs a key type without and a value type with drop glue): added the type instantiations pd/dp/df/dn',
     'C12-4': 'missed (override of the by-value method last() was never called: &mut I resolves to the default): the pattern runner now owns the iterator',
     'C04-3': 'missed (needs a &str lookup aliasing a stored String key under colliding hashers): added the directed scenario c04_alias_prefix',
+    'C04-4': 'missed (needs a BuildHasher whose specialised hash_one disagrees with hashing through build_hasher): added hasher kind 5',
+    'C09-4': 'missed by the probe (needs the lock to be held by another thread while the estimate is taken): added the directed scenario c09_contended_lock',
+    'C06-5': 'missed like C06-3 (nth on the owning iterators)',
+    'C06-4': 'missed like C15-3 (one-sided drop glue)',
+    'C11-4': 'missed (needs a value type narrower than a pointer whose estimate depends on its state): added the dn instantiation',
     'C10-4': 'not detected, by decision: manifests only with a size estimator that returns different values for the same unchanged value (outside the properties; DESIGN 0.2)',
 }
 def main():
@@ -39,7 +44,7 @@ def main():
         try: meta = json.load(open(os.path.join(mdir, 'meta.json')))
         except Exception as ex: meta = dict(error=str(ex))
         origin = meta.pop('origin', None)
-        rnd = '3' if origin else ('2' if n == '3' else '1')
+        rnd = ('2b' if origin.startswith('round2b') else '3') if origin else ('2' if n == '3' else '1')
         out = dict(property=prop, breaks=prop, round=rnd, summary=meta.get('summary'), needs=meta.get('needs'),
                    produced_by='a fresh sub-agent given only the property text' + (' and one dimension to exploit (%s)' % origin if origin else '') + ' and its own scratch worktree of /repo',
                    confirmed=confirm.get(sid, None), ran_by_subagent=meta.get('ran'),
